@@ -205,7 +205,7 @@ WithTrunc(n, msl, tc) ==
   ELSE tc
 TakeN(k, s) == IF Len(s) <= k THEN s ELSE SubSeq(s, 1, k)
 
-RECURSIVE PVC(_, _), PVT(_, _, _), CallAlt(_, _, _, _)
+RECURSIVE PVC(_, _), PVT(_, _, _), CallAlt(_, _, _, _), PContainer(_, _, _, _)
 \* (\o <<>> forces TLC's lazy function value into a tuple: otherwise every docs[i] re-runs PV)
 PVSeq(vs, ctx) == [i \in 1..Len(vs) |-> PVC(vs[i], ctx)] \o <<>>
 
@@ -226,45 +226,37 @@ CallAlt(ctx, fndoc, args, kwargs) ==
        IN BuildFncall(ctx, fndoc, PVSeq(args, nctx),
                       [i \in 1..Len(kwargs) |-> <<kwargs[i][1], PVC(kwargs[i][2], nctx)>>] \o <<>>, FALSE, NONE)
 
-\* the printers; tc = trailing comment (NONE or non-empty text); printers that do not take one drop it (with a warning)
-PVT(v, ctx, tc) ==
-  CASE v[1] = "int" ->
-         IF DepthZero(ctx) THEN Placeholder("int") ELSE Ann(NUMBER_INT, Txt(v[3]))
-    [] v[1] = "float" ->
-         IF DepthZero(ctx) THEN Placeholder("float")
-         ELSE IF v[2] \in {"inf", "-inf", "nan"}
-              \* pretty_call_alt(ctx, float, args=('inf',)): a str argument, printed with the nested context
-              THEN CallAlt(ctx, Builtin(NameOf("float")), << <<"str", v[3]>> >>, <<>>)
-              ELSE Ann(NUMBER_FLOAT, Txt(v[3]))
-    [] v[1] = "bool" -> Ann(KEYWORD_CONSTANT, Txt(IF v[2] = 1 THEN <<84, 114, 117, 101>> ELSE <<70, 97, 108, 115, 101>>))
-    [] v[1] = "none" -> Ann(KEYWORD_CONSTANT, Txt(<<78, 111, 110, 101>>))
-    [] v[1] = "ellipsis" -> ELLIPSIS
-    [] v[1] \in {"str", "bytes"} ->
-         IF DepthZero(ctx) THEN Placeholder(v[1])
-         ELSE <<"pstr", v[2], v[1] = "bytes", ctx.strat, ctx.indent>>
-    [] v[1] \in {"list", "tuple", "set"} ->
+\* pretty_bracketable_iterable / pretty_frozenset / pretty_dict; fn = NONE for the exact built-in type, the
+\* constructor's identifier document for an instance of a subclass
+PContainer(v, ctx, tc, fn) ==
+  LET native == fn = NONE
+      wrapHug(lit) == IF native THEN lit ELSE BuildFncall(ctx, fn, <<lit>>, <<>>, TRUE, NONE)
+      ctor(kind) == IF native THEN Builtin(NameOf(kind)) ELSE fn
+  IN
+  CASE v[1] \in {"list", "tuple", "set"} ->
          LET left == CASE v[1] = "list" -> LBRACKET [] v[1] = "tuple" -> LPAREN [] OTHER -> LBRACE
              right == CASE v[1] = "list" -> RBRACKET [] v[1] = "tuple" -> RPAREN [] OTHER -> RBRACE
              n == Len(v[2])
              tcm == WithTrunc(n, ctx.msl, tc)
              hasTc == Truthy(tcm)
          IN IF hasTc /\ ~ModelledText(tcm) THEN <<"unmodelled">>
-            ELSE IF n = 0 /\ v[1] # "set" /\ ~hasTc THEN Cat(<<left, right>>)
+            ELSE IF n = 0 /\ v[1] # "set" /\ ~hasTc
+                 THEN (IF native THEN Cat(<<left, right>>) ELSE CallAlt(ctx, fn, <<>>, <<>>))
             ELSE IF n = 0 /\ v[1] = "set"
-                 THEN (IF ~hasTc THEN CallAlt(ctx, Builtin(NameOf("set")), <<>>, <<>>)
-                       ELSE BuildFncall(ctx, Builtin(NameOf("set")), <<>>, <<>>, FALSE, tcm))
+                 THEN (IF ~hasTc THEN CallAlt(ctx, ctor("set"), <<>>, <<>>)
+                       ELSE BuildFncall(ctx, ctor("set"), <<>>, <<>>, FALSE, tcm))
             ELSE IF DepthZero(ctx)
-                 THEN (IF v[1] = "set" THEN Placeholder("set") ELSE Cat(<<left, ELLIPSIS, right>>))
+                 THEN (IF v[1] = "set" THEN PlaceholderFn(ctor("set")) ELSE wrapHug(Cat(<<left, ELLIPSIS, right>>)))
             ELSE LET els == IF n = 1 THEN <<PVC(v[2][1], Strat(Nested(ctx), "plain"))>>
                             ELSE PVSeq(TakeN(ctx.msl, v[2]), Strat(Nested(ctx), "hang"))
                      els2 == IF hasTc THEN Append(els, CommentDoc(tcm)) ELSE els
-                 IN SequenceOfDocs(ctx, left, els2, right, v[1] = "tuple" /\ n = 1 /\ ~hasTc, hasTc)
+                 IN wrapHug(SequenceOfDocs(ctx, left, els2, right, v[1] = "tuple" /\ n = 1 /\ ~hasTc, hasTc))
     [] v[1] = "frozenset" ->
          \* pretty_frozenset takes no trailing_comment; list(value) is the sole (hugged) argument, same context
-         IF Len(v[2]) = 0 THEN CallAlt(ctx, Builtin(NameOf("frozenset")), <<>>, <<>>)
-         ELSE CallAlt(ctx, Builtin(NameOf("frozenset")), << <<"list", v[2]>> >>, <<>>)
+         IF Len(v[2]) = 0 THEN CallAlt(ctx, ctor("frozenset"), <<>>, <<>>)
+         ELSE CallAlt(ctx, ctor("frozenset"), << <<"list", v[2]>> >>, <<>>)
     [] v[1] = "dict" ->
-         IF DepthZero(ctx) THEN Cat(<<LBRACE, ELLIPSIS, RBRACE>>)
+         IF DepthZero(ctx) THEN wrapHug(Cat(<<LBRACE, ELLIPSIS, RBRACE>>))
          ELSE LET all == v[2]
                   tcm == WithTrunc(Len(all), ctx.msl, tc)
                   hasTc == Truthy(tcm)
@@ -272,7 +264,9 @@ PVT(v, ctx, tc) ==
                   n == Len(prs)
                   kd(i) == LET k == prs[i][1] IN
                            \* str/bytes keys are printed with the dict's own context
-                           IF k[1] \in {"str", "bytes"} THEN PVT(k, Strat(ctx, "parens"), NONE) ELSE PVC(k, Nested(ctx))
+                           \* (isinstance(k, (str, bytes)): instances of str / bytes subclasses too)
+                           IF k[1] \in {"str", "bytes"} \/ (k[1] = "sub" /\ k[3][1] \in {"str", "bytes"})
+                           THEN PVT(k, Strat(ctx, "parens"), NONE) ELSE PVC(k, Nested(ctx))
                   vd(i) == PVC(prs[i][2], Strat(Nested(ctx), "indented"))
                   kds == [i \in 1..n |-> kd(i)] \o <<>>
                   vds == [i \in 1..n |-> vd(i)] \o <<>>
@@ -301,9 +295,46 @@ PVT(v, ctx, tc) ==
                             IN Cat(<<kcommented, Cat(<<COLON, Txt(<<32>>)>>), vcommented>>)
                   parts == [i \in 1..n |-> part(i)] \o <<>>
                   parts2 == IF hasTc THEN Append(parts, Cat(<<HLT, CommentDoc(tcm)>>)) ELSE parts
-                  doc == Bracket(ctx, LBRACE, Cat(parts2), RBRACE)
+                  doc0 == Bracket(ctx, LBRACE, Cat(parts2), RBRACE)
+                  doc == IF n > 2 \/ hasComment THEN AB(doc0) ELSE Grp(doc0)
               IN IF hasTc /\ ~ModelledText(tcm) THEN <<"unmodelled">>
-                 ELSE IF n > 2 \/ hasComment THEN AB(doc) ELSE Grp(doc)
+                 ELSE IF native THEN doc
+                 ELSE IF Len(parts2) = 0 THEN CallAlt(ctx, fn, <<>>, <<>>)
+                 ELSE BuildFncall(ctx, fn, <<doc>>, <<>>, TRUE, NONE)
+
+\* the printers; tc = trailing comment (NONE or non-empty text); printers that do not take one drop it (with a warning)
+PVT(v, ctx, tc) ==
+  CASE v[1] = "int" ->
+         IF DepthZero(ctx) THEN Placeholder("int") ELSE Ann(NUMBER_INT, Txt(v[3]))
+    [] v[1] = "float" ->
+         IF DepthZero(ctx) THEN Placeholder("float")
+         ELSE IF v[2] \in {"inf", "-inf", "nan"}
+              \* pretty_call_alt(ctx, float, args=('inf',)): a str argument, printed with the nested context
+              THEN CallAlt(ctx, Builtin(NameOf("float")), << <<"str", v[3]>> >>, <<>>)
+              ELSE Ann(NUMBER_FLOAT, Txt(v[3]))
+    [] v[1] = "bool" -> Ann(KEYWORD_CONSTANT, Txt(IF v[2] = 1 THEN <<84, 114, 117, 101>> ELSE <<70, 97, 108, 115, 101>>))
+    [] v[1] = "none" -> Ann(KEYWORD_CONSTANT, Txt(<<78, 111, 110, 101>>))
+    [] v[1] = "ellipsis" -> ELLIPSIS
+    [] v[1] \in {"str", "bytes"} ->
+         IF DepthZero(ctx) THEN Placeholder(v[1])
+         ELSE <<"pstr", v[2], v[1] = "bytes", ctx.strat, ctx.indent, <<>>>>
+    [] v[1] \in {"list", "tuple", "set", "frozenset", "dict"} -> PContainer(v, ctx, tc, NONE)
+    \* an instance of a user subclass of a built-in type: <<"sub", printed constructor name, base value>>
+    [] v[1] = "sub" ->
+         LET fn == Ann(NAME_FUNCTION, Txt(v[2]))
+             b == v[3]
+         IN CASE b[1] = "int" ->
+                   IF DepthZero(ctx) THEN PlaceholderFn(fn)
+                   ELSE BuildFncall(ctx, fn, <<Ann(NUMBER_INT, Txt(b[3]))>>, <<>>, FALSE, NONE)
+              [] b[1] = "float" ->
+                   IF DepthZero(ctx) THEN PlaceholderFn(fn)
+                   ELSE IF b[2] \in {"inf", "-inf", "nan"} THEN CallAlt(ctx, fn, << <<"str", b[3]>> >>, <<>>)
+                   ELSE BuildFncall(ctx, fn, <<Ann(NUMBER_FLOAT, Txt(b[3]))>>, <<>>, FALSE, NONE)
+              [] b[1] \in {"str", "bytes"} ->
+                   IF DepthZero(ctx) THEN PlaceholderFn(fn)
+                   ELSE <<"pstr", b[2], b[1] = "bytes", ctx.strat, ctx.indent, v[2]>>
+              [] b[1] \in {"list", "tuple", "set", "frozenset", "dict"} -> PContainer(b, ctx, tc, fn)
+              [] OTHER -> <<"unmodelled">>
     \* a user type whose printer is  pretty_call(ctx, <name>, *args, **kwargs):  <<"call", name, args, kwargs>>
     [] v[1] = "call" -> CallAlt(ctx, Ann(NAME_FUNCTION, Txt(v[2])), v[3], v[4])
     [] OTHER -> <<"unmodelled">>
